@@ -679,8 +679,28 @@ def undefine_unused_variables(source: str, preserve: Collection[str] = frozenset
             ast.AnnAssign(target=ast.Name(id="_")),
             ast.AugAssign(target=ast.Name(id="_")),
     ),):
-        if node not in class_body_blacklist:
-            yield node, node.value
+        if node in class_body_blacklist:
+            continue
+        # Unpacking iterates the value and checks its length, which runs the code of a generator
+        # and raises for the wrong number of items. Only a display of the right size surely
+        # unpacks without doing anything.
+        if isinstance(node, ast.Assign) and not all(
+            _unpacks_trivially(target, node.value)
+            for target in node.targets
+            if isinstance(target, ast.Tuple)
+        ):
+            continue
+        yield node, node.value
+
+
+def _unpacks_trivially(target: ast.Tuple, value: ast.AST) -> bool:
+    if not isinstance(value, (ast.Tuple, ast.List)):
+        return False
+    if any(isinstance(elt, ast.Starred) for elt in value.elts):
+        return False
+    if any(isinstance(elt, ast.Starred) for elt in target.elts):
+        return len(value.elts) >= len(target.elts) - 1
+    return len(value.elts) == len(target.elts)
 
 
 def _iter_unused_names(
